@@ -545,4 +545,194 @@ theorem chain_not_faithful : ¬ ChainFaithful := by
   have := h ⟨fun _ s => (.delete, s), fun _ s => s⟩ default
   simp [chained, chainEnter] at this
 
+/-! ## coverage -/
+
+private def WalkF (f : Node → σ → Res (Out σ)) (g : Node → Res (List Ev)) : Prop :=
+  ∀ c s o, f c s = .ok o → g c = .ok o.tr
+
+private theorem visitList_walk {f : Node → σ → Res (Out σ)} {g : Node → Res (List Ev)} (hf : WalkF f g) :
+    ∀ cs s r ip s' tr, visitList f cs s = .ok (r, ip, s', tr) → Spec.walkList g cs = .ok tr := by
+  intro cs
+  induction cs with
+  | nil => intro s r ip s' tr h; simp [visitList] at h; simp [Spec.walkList, h.2.2.2]
+  | cons c cs ih =>
+    intro s r ip s' tr h
+    simp only [visitList] at h
+    cases hc : f c s with
+    | err e => simp [hc] at h
+    | fuel => simp [hc] at h
+    | ok o =>
+      simp only [hc] at h
+      cases hr : visitList f cs o.st with
+      | err e => simp [hr] at h
+      | fuel => simp [hr] at h
+      | ok q =>
+        obtain ⟨r1, ip1, s1, tr1⟩ := q
+        simp only [hr, Res.ok.injEq, Prod.mk.injEq] at h
+        simp only [Spec.walkList, hf c s o hc, ih _ _ _ _ _ hr, h.2.2.2]
+
+private theorem runStep_walk {call : Target → Node → σ → Res (Out σ)} {wcall : Target → Node → Res (List Ev)}
+    (hc : ∀ t, WalkF (call t) (wcall t))
+    (st : Step) (n : Node) (s : σ) (n' : Node) (s' : σ) (tr : List Ev)
+    (h : runStep call st n s = .ok (n', s', tr)) : Spec.walkStep wcall st n = .ok tr := by
+  unfold runStep at h
+  unfold Spec.walkStep
+  split at h
+  · rename_i happ; simp at h; simp [happ, h.2.2]
+  · rename_i happ
+    simp only [happ]
+    split at h
+    · simp at h
+    · rename_i a ha
+      simp only [ha]
+      split at h
+      · rename_i hg
+        split at h <;> simp at h
+        rename_i hg2
+        simp [hg, hg2, h.2.2]
+      · rename_i c hs
+        split at h
+        · simp at h
+        · simp at h
+        · rename_i o ho
+          simp only [Res.ok.injEq, Prod.mk.injEq] at h
+          simp [hs, hc _ _ _ _ ho, h.2.2]
+      · rename_i cs hs
+        split at h
+        · simp at h
+        · simp at h
+        · rename_i r ip s1 tr1 hl
+          simp only [Res.ok.injEq, Prod.mk.injEq] at h
+          simp [hs, visitList_walk (hc _) _ _ _ _ _ _ hl, h.2.2]
+      · simp at h
+
+private theorem runSteps_walk {call : Target → Node → σ → Res (Out σ)} {wcall : Target → Node → Res (List Ev)}
+    (hc : ∀ t, WalkF (call t) (wcall t)) (hid : ∀ t, IdF (call t)) :
+    ∀ (steps : List Step) (n : Node) (s : σ) (n' : Node) (s' : σ) (tr : List Ev),
+      runSteps call steps n s = .ok (n', s', tr) → Spec.walkSteps wcall steps n = .ok tr := by
+  intro steps
+  induction steps with
+  | nil => intro n s n' s' tr h; simp [runSteps] at h; simp [Spec.walkSteps, h.2.2]
+  | cons st rest ih =>
+    intro n s n' s' tr h
+    simp only [runSteps] at h
+    cases h1 : runStep call st n s with
+    | err e => simp [h1] at h
+    | fuel => simp [h1] at h
+    | ok q =>
+      obtain ⟨n1, s1, tr1⟩ := q
+      simp only [h1] at h
+      cases h2 : runSteps call rest n1 s1 with
+      | err e => simp [h2] at h
+      | fuel => simp [h2] at h
+      | ok q2 =>
+        obtain ⟨n2, s2, tr2⟩ := q2
+        simp only [h2, Res.ok.injEq, Prod.mk.injEq] at h
+        have e1 := runStep_id hid _ _ _ _ _ _ h1
+        subst e1
+        simp only [Spec.walkSteps, runStep_walk hc _ _ _ _ _ _ h1, ih _ _ _ _ _ h2, h.2.2]
+
+private theorem visitM_walk (T : Table) (v : Visitor σ) (hv : Observer v) :
+    ∀ fuel m, WalkF (visitM T v fuel m) (Spec.walk T fuel m) := by
+  intro fuel
+  induction fuel with
+  | zero => intro m c s o h; simp [visitM] at h
+  | succ fuel ih =>
+    intro m c s o h
+    have he := hv c s
+    rcases hes : v.enter c s with ⟨act, s1⟩
+    rw [hes] at he
+    simp only at he
+    subst he
+    simp only [visitM, hes] at h
+    simp only [Spec.walk]
+    split at h
+    · simp at h
+    · rename_i steps hm
+      simp only [hm]
+      split at h
+      · simp at h
+      · simp at h
+      · rename_i n2 s2 tr hr
+        have hw : ∀ t, WalkF (callTarget T (visitM T v fuel) t) (Spec.walkTarget T (Spec.walk T fuel) t) := by
+          intro t c s o ho
+          unfold callTarget at ho
+          unfold Spec.walkTarget
+          split at ho
+          · rename_i m' hres; simp only [hres]; exact ih m' c s o ho
+          · simp at ho
+        have hwalk := runSteps_walk hw (callTarget_id T _ (visitM_id T v hv fuel)) _ _ _ _ _ _ hr
+        have hid := runSteps_id (callTarget_id T _ (visitM_id T v hv fuel)) _ _ _ _ _ _ hr
+        simp only [Res.ok.injEq] at h
+        subst h
+        subst hid
+        simp [hwalk]
+
+/-- **coverage_partial** — for a visitor that changes nothing, the calls of a completed visit are exactly
+    `Spec.implEvents`: the pre/post-order over the child relation that the table IMPLEMENTS, so every node reachable
+    through that relation is entered and left exactly once, parents around children, in the order of the
+    statements of the `_visit_*` bodies.
+    Missing w.r.t. the property statement: the implemented relation is a strict subset of "every non-name child"
+    and its order is not always the source order (see `FullCoverage`, `full_coverage_false`, `gaps_*`). -/
+theorem coverage_partial (T : Table) (v : Visitor σ) (hv : Observer v) (fuel : Nat) (t : Node) (s : σ) (o : Out σ)
+    (h : visit T v fuel t s = .ok o) : Spec.implEvents T fuel t = .ok o.tr := by
+  unfold visit at h
+  unfold Spec.implEvents
+  split at h
+  · simp at h
+  · rename_i m hm
+    simp only [hm]
+    exact visitM_walk T v hv fuel m t s o h
+
+/-! ## what `visitor.py` says today (the GENERATED table): closed by `decide`, re-opened by any source edit -/
+
+open PyGql.Generated.VisitTable
+
+/-- the visitor that changes nothing and keeps no state -/
+def observer : Visitor Unit := ⟨fun n s => (.keep n, s), fun _ s => s⟩
+
+theorem observer_is_observer : Observer observer := fun _ _ => rfl
+
+/-- (enter?, id, kind) of the calls of an identity visit of `t` with the extracted table -/
+def implKeys (fuel : Nat) (t : Node) : Option (List (Bool × Nat × String)) :=
+  match visit table observer fuel t () with
+  | .ok o => some (o.tr.map Ev.key)
+  | _ => none
+
+def specKeys (t : Node) : List (Bool × Nat × String) := (Spec.events t).map Ev.key
+
+def enterIds (ks : List (Bool × Nat × String)) : List Nat := (ks.filter (·.1)).map (·.2.1)
+
+mutual
+/-- (parent kind, attribute) of every non-name child of an entered node that is itself not entered -/
+def gapsNode (entered : List Nat) : Node → List (String × String)
+  | .mk k _ a => gapsAttrs entered k a
+def gapsAttrs (entered : List Nat) (k : String) : List (String × Attr) → List (String × String)
+  | [] => []
+  | (name, a) :: r => gapsAttr entered k name a ++ gapsAttrs entered k r
+def gapsAttr (entered : List Nat) (k name : String) : Attr → List (String × String)
+  | .scalar _ => []
+  | .one none => []
+  | .one (some c) =>
+    if c.kind == "Name" then [] else if entered.contains c.id then gapsNode entered c else [(k, name)]
+  | .many cs => gapsList entered k name cs
+def gapsList (entered : List Nat) (k name : String) : List Node → List (String × String)
+  | [] => []
+  | c :: r =>
+    (if c.kind == "Name" then [] else if entered.contains c.id then gapsNode entered c else [(k, name)])
+      ++ gapsList entered k name r
+end
+
+/-- structural gaps of the implemented traversal on `t` -/
+def gaps (t : Node) : Option (List (String × String)) :=
+  (implKeys 64 t).map fun ks => (gapsNode (enterIds ks) t).eraseDups
+
+/-- are the entered nodes entered in the specified (source) order? -/
+def orderOk (t : Node) : Option Bool :=
+  (implKeys 64 t).map fun ks => enterIds ks == (enterIds (specKeys t)).filter (fun i => (enterIds ks).contains i)
+
+/-- **FULL STATEMENT of coverage** (false today): an identity visit enters and leaves EVERY non-name node,
+    pre/post-order, siblings in source order. -/
+def FullCoverage : Prop := ∀ (t : Node) (fuel : Nat) (ks : List (Bool × Nat × String)), implKeys fuel t = some ks → ks = specKeys t
+
 end PyGql.Props.C18
